@@ -10,8 +10,9 @@ from rules import writer_common as wc
 MODE = 'lib'
 EXPLANATION = """
 Decides structural clauses of C10 (oracle: RFC 8945 §5.2, §5.3 and the table in the property):
-(a) verification_core: every Ok return passes, in this dominance order, check_mac_size, verify_truncated_left and
-check_time, each on its success edge;
+(a) verification_core: the MAC is verified only on paths on which check_mac_size returned Ok, the time is checked only
+on paths on which verify_truncated_left returned Ok, and Ok is returned only after check_time returned Ok -- decided by
+the provenance of the value each dominating branch tests (through `?`, `.or(..)`, an extracted helper's return slot);
 (b) the response table of verify_tsig_and_write_tsig_rr: Ok -> (NOERROR, 0, signed response), BadSig -> (NOTAUTH, 16,
 unsigned), BadTime -> (NOTAUTH, 18, signed with the request MAC), FormErr -> (FORMERR, 16, unsigned); unknown algorithm
 and unknown key -> NOTAUTH + BADKEY(17) unsigned; the function returns rcode == NOERROR;
